@@ -436,3 +436,8 @@ V('C18', 'c18v-known-connections-dict', [(PARSE, "        self.known_connections
                                           (PARSE, "            self.known_connections.add(conn_id)\n", "            self.known_connections[conn_id] = True\n")])
 V('C04', 'c04v-known-connections-list', [(PARSE, "        self.known_connections: Set[str] = set()", "        self.known_connections: list = []"),
                                           (PARSE, "            self.known_connections.add(conn_id)\n", "            self.known_connections.append(conn_id)\n")])
+
+PROTO = 'core/wl/protocol.py'
+M('C07', 'c07-enum-path-first-component', [(PROTO, "    enum_interface_name = enum_name_parts[-2]", "    enum_interface_name = enum_name_parts[0] if len(enum_name_parts) == 2 else enum_name_parts[1]")], 'C07.6')
+M('C07', 'c07-enum-path-own-interface-only', [(PROTO, "    enum_interface_name = enum_name_parts[-2]", "    enum_interface_name = interface_name")], 'C07.6')
+V('C07', 'c07v-enum-path-rpartition', [(PROTO, "    enum_name_parts = [interface_name] + enum_path.split('.')\n    enum_interface_name = enum_name_parts[-2]\n    enum_name = enum_name_parts[-1]", "    qualifier, dot, enum_name = enum_path.rpartition('.')\n    enum_interface_name = qualifier.rpartition('.')[2] if dot else interface_name")])
